@@ -190,6 +190,10 @@ func c06Program(bodies []c06Body, hist []c06Op) *Block {
 
 func runC06(r *harness.Run) {
 	bodies := c06Bodies()
+	if getenv("VERIF_C06_PART") == "suspend" { // development aid: only the suspended-families part
+		c06Suspended(r)
+		return
+	}
 	// histories are complete up to fullDepth; one further level extends every state by resume
 	// operations only
 	fullDepth := 3
@@ -334,6 +338,35 @@ func runC06(r *harness.Run) {
 	r.Extra["traces_validated_against_impl"] = transitions
 	r.Extra["max_depth_completed"] = maxDone
 	c06GoAPI(r, bodies)
+	c06Suspended(r)
+}
+
+// c06Suspended — "each coroutine keeps its own locals, loop state, call stack and open upvalues
+// across suspensions": the program families of C01–C03 (control flow, loops, calls, closures with
+// every exit route, block nestings) run as the body of a coroutine that suspends after every
+// observable event, with a register-hungry call (and, second variant, another coroutine's resume)
+// between two resumes. Programs whose events happen below a pcall/metamethod/iterator boundary are
+// indeterminate for Lua 5.1 (yield across a C boundary) and are skipped by the model.
+func c06Suspended(r *harness.Run) {
+	th := r.Thorough()
+	pr := c03Runner(r)
+	pr.prop = "C06"
+	base := map[string]Gen{"F-ctrl": genCtrl(false), "F-numfor": genNumFor(th), "F-genfor": genGenFor(th), "F-call": genCall(false), "F-tail": genTail(false), "F-closure": genClosure(th), "F-nest": genNest(false), "F-cond": genCond(false)}
+	order := []string{"F-numfor", "F-genfor", "F-closure", "F-tail", "F-nest", "F-ctrl", "F-call"}
+	if th {
+		order = append(order, "F-cond")
+	}
+	gens := map[string]Gen{}
+	var names []string
+	for _, n := range order {
+		gens["S1/"+n] = mapGen(base[n], "S1/", suspendAtEmit(false))
+		names = append(names, "S1/"+n)
+		if th || n == "F-closure" || n == "F-numfor" || n == "F-genfor" || n == "F-tail" {
+			gens["S2/"+n] = mapGen(base[n], "S2/", suspendAtEmit(true))
+			names = append(names, "S2/"+n)
+		}
+	}
+	pr.runGens(gens, names)
 }
 
 func envInt(name string) int {
